@@ -14,7 +14,8 @@ Families == <<
      S("Meters", <<BP(7, 1, 1)>>), S("Inches", <<BP(4, 1, 2)>>) >>,
   << U("Seconds"), U("Minutes"), U("Hours"), U("Days"), P("milli", "Seconds"), P("micro", "Seconds"), P("nano", "Seconds"), P("kilo", "Seconds"),
      S("Seconds", <<BP(4, -4, 1), BP(6, -1, 1), BP(10, -4, 1), BP(14, 1, 1), BP(22, 1, 1), BP(26, 1, 1)>>) >>,
-  << U("Radians"), U("Degrees"), U("Revolutions"), U("Arcminutes"), U("Arcseconds"), P("milli", "Radians"), S("Degrees", <<BP(4, -1, 1)>>) >>,
+  << U("Radians"), U("Degrees"), U("Revolutions"), U("Arcminutes"), U("Arcseconds"), P("milli", "Radians"), S("Degrees", <<BP(4, -1, 1)>>),
+     S("Revolutions", <<BP(14, -1, 1)>>), S("Degrees", <<BP(4, 1, 1), BP(22, -1, 1)>>), S("Radians", <<BP(6, 1, 1), BP(7, 1, 1), BP(10, -1, 1)>>) >>,   \* rev/7, 2deg/11, (3pi/5) rad: rational, non-integer ratios among pi-carrying units
   << U("Bits"), U("Bytes"), P("kibi", "Bytes"), P("kilo", "Bits"), P("mebi", "Bits"), S("Bytes", <<BP(6, 1, 1)>>) >>,
   << U("Grams"), U("PoundsMass"), U("Slugs"), P("kilo", "Grams"), P("milli", "Grams"), S("PoundsMass", <<BP(4, -4, 1)>>) >>,
   << U("Kelvins"), U("Celsius"), U("Fahrenheit"), P("milli", "Kelvins"), P("centi", "Celsius"), S("Kelvins", <<BP(4, -1, 1)>>) >> >>
